@@ -12,6 +12,7 @@ import (
 	"strings"
 
 	"github.com/Oneledger/protocol/action"
+	"github.com/Oneledger/protocol/action/olvm"
 	acteth "github.com/Oneledger/protocol/action/eth"
 	ethchain "github.com/Oneledger/protocol/chains/ethereum"
 	govact "github.com/Oneledger/protocol/action/governance"
@@ -26,6 +27,7 @@ import (
 	"github.com/Oneledger/protocol/external_apps/bid/bid_action"
 	"github.com/Oneledger/protocol/external_apps/bid/bid_data"
 	ethcommon "github.com/ethereum/go-ethereum/common"
+	ethcrypto "github.com/ethereum/go-ethereum/crypto"
 )
 
 // kind codes K_* of coq/theories/LedgerTx.v
@@ -186,6 +188,9 @@ func c02PreTx(r *c02Runner, before *c02View, tx *action.SignedTx) c02Pre {
 	kind, msg, amt := c02Msg(tx)
 	if len(tx.Signatures) == 0 {
 		return nil
+	}
+	if tx.Type == action.OLVM {
+		return c02PreOLVM(r, before, tx)
 	}
 	if kind == 0 {
 		return c02PreBid(r, before, tx)
@@ -422,6 +427,53 @@ func c02EthStep(r *c02Runner, before, after *c02View, tx *action.SignedTx, s *c0
 			s.AllowC = append(s.AllowC, c02Rec{C: ethCur, Amt: a.String()})
 			s.Model = fmt.Sprintf("fun _ => Some (effect_eth_redeem_refund %d %d %s)", r.in.owner(who), ethCur, c02Z(a.String()))
 		}
+	}
+}
+
+// OLVM at the transaction level: contract creations and value transfers to addresses without code (calls of contracts are C17's):
+// value sender -> target unless the execution reverted (observed: whether the target received it), gas fee sender -> fee pool
+func c02PreOLVM(r *c02Runner, before *c02View, tx *action.SignedTx) c02Pre {
+	m := &olvm.Transaction{}
+	if m.Unmarshal(tx.Data) != nil || m.Amount.Currency != "OLT" {
+		return nil
+	}
+	var target keys.Address
+	if m.To == nil {
+		target = keys.Address(ethcrypto.CreateAddress(ethcommon.BytesToAddress(m.From.Bytes()), m.Nonce).Bytes())
+	} else {
+		target = *m.To
+		if before.Protocol[target.String()] {
+			return nil // a call of a contract: what its code does with the balances is C17's
+		}
+	}
+	if target.Equal(m.From) {
+		return nil
+	}
+	price := new(big.Int).Set(tx.Fee.Price.Value.BigInt())
+	value := new(big.Int).Set(m.Amount.Value.BigInt())
+	sender, tgt, fp := r.in.owner(m.From.String()), r.in.owner(target.String()), r.in.owner(c02FeePoolOwner)
+	tk := c02Key{target.String(), c02BBal, "OLT", ""}
+	old := new(big.Int)
+	if b := before.Led[tk]; b != nil {
+		old.Set(b)
+	}
+	creation := m.To == nil
+	return func(gasUsed int64, ok bool) string {
+		fee := new(big.Int).Mul(big.NewInt(gasUsed), price)
+		reverted := "false"
+		if creation && value.Sign() > 0 {
+			// the endowment of a creation whose init code reverts stays with the sender
+			if now := r.cur; now != nil {
+				nb := new(big.Int)
+				if b := c02Decode(r.rep.View()).Led[tk]; b != nil {
+					nb.Set(b)
+				}
+				if nb.Cmp(old) == 0 {
+					reverted = "true"
+				}
+			}
+		}
+		return fmt.Sprintf("fun _ => effect_olvm %d %d %d %s %s %s", sender, tgt, fp, c02Z(value.String()), reverted, c02Z(fee.String()))
 	}
 }
 
